@@ -12,6 +12,7 @@ rounds.  Each property's command enables its own statement mix and reports
 only violations of its own clauses.
 """
 import copy
+import re
 import math
 
 import numpy as np
@@ -1200,6 +1201,24 @@ class RoundGen:
                 and "*" not in q and q in self.g.nodes and rng.random() < 0.5:
             orig = self.g.nodes[q]
             copy_path = self.g.last_new
+            if orig["format"] is not None and orig["type"] == "str" and not orig["options"] \
+                    and orig["condition"] is None and copy_path in self.g.nodes \
+                    and copy_path != q and not orig["constant"] and isinstance(orig["value"], str):
+                # the copy gets a format of its own; what it may hold afterwards is decided by
+                # that one, not by the format it arrived with
+                f2 = rng.choice([f for f in FORMATS if f[0] != orig["format"]])
+                self.emit({"k": "format", "indent": dind, "regex": f2[0]})
+                if self.stopped:
+                    return
+                old_only = [w for w in f2[2] if re.match(orig["format"], w)]
+                if old_only and rng.random() < 0.5:
+                    v = rng.choice(old_only)
+                    self.fault_label = "format_of_the_copy"
+                else:
+                    v = rng.choice(f2[1])
+                self.emit({"k": "mod", "indent": 0, "name": copy_path, "value": v, "unit": None})
+                self.chain_valid = False
+                return
             if orig["options"] and orig["type"] in ("int", "float", "str") and \
                     copy_path in self.g.nodes and copy_path != q and not orig["constant"] \
                     and orig["dims"] is None:
